@@ -571,6 +571,10 @@ impl XV {
     }
 }
 impl Q {
+    /// ln as an owned rational (for oracles)
+    pub fn ln_pub(self) -> BigRational {
+        <Q as num::Float>::ln(self).get().expect("finite ln")
+    }
     pub fn extract(self) -> XV {
         match self {
             Q::Fin { .. } => XV::Fin(self.get().unwrap()),
